@@ -137,6 +137,13 @@ func solveBatch1(c *FnCtx, obls []*Obligation, timeoutMs int) {
 		go func(o *Obligation) {
 			defer wg.Done()
 			solveOne(c, o, timeoutMs)
+			// no solver decided it within the budget: before this is reported, give it one longer
+			// attempt (a loaded machine must not turn a 2 s proof into an alarm)
+			if o.Status != "sat" && o.Status != "unsat" && timeoutMs < 30000 {
+				o.Status, o.Model = "", ""
+				solveOne(c, o, timeoutMs*6)
+				o.Note += " (decided only on the retry with a 6x budget)"
+			}
 		}(o)
 	}
 	wg.Wait()
